@@ -110,7 +110,8 @@ Definition ex_tree2 : list anode :=
          (Some [mkAAttr (Some [116]%N) None VRaw false false false])
          [ANode (Some [98]%N) None None None [] false; ANode (Some [99]%N) None None None [] true] false].
 Example tabstops_nonvacuous :
-  forallb no_fields ex_tree2 = true /\ sites_list ex_cfg ex_tree2 = 2 /  fields_of (fchunks (html_format ex_cfg ex_tree2)) = [(1, []); (2, [])]%N.
+  forallb no_fields ex_tree2 = true /\ sites_list ex_cfg ex_tree2 = 2 /\ 
+  fields_of (fchunks (html_format ex_cfg ex_tree2)) = [(1%N, []); (2%N, [])].
 Proof. vm_compute. repeat split. Qed.
 Example explicit_nonvacuous :
   let v := [VField 3 []; VStr [32]%N; VField 1 [113]%N] in
